@@ -87,7 +87,7 @@ func runMemLimit(o opts, out *Output) {
 	limits := []uint64{16, 64, 256, 1024, 4096, 8192, 16384, 65536, 1 << 20, 70 << 20}
 	stats := map[string]int{}
 	for c := 0; c < o.n; c++ {
-		g := &OGen{r: r.Fork(), Wide: r.Chance(40)}
+		g := &OGen{r: r.Fork(), Wide: r.Chance(40), Mono: monoPick(r)}
 		nb := 1 + r.Intn(4)
 		prod := arrow_record.NewProducer()
 		var bars []*colarspb.BatchArrowRecords
